@@ -14,6 +14,9 @@ CHECKS = {
  "C03": ("exploration", "outcome-predicate monitor in crash-isolating child processes + determinism check",
    "11k (quick) / 250k (thorough) inputs <=64KiB — structured hostile families (nesting to depth 30000, regex lengths around the limit, unterminated tokens, invalid UTF-8/NUL, out-of-range literals), every prefix of every example, the repository's own test-table programs, generator output, byte/token/splice mutations, token soups, random bytes — each compiled twice in child processes that log the input before compiling; exactly-one-of(object, non-empty errors), no panic/process death, same object dump twice and in a second process; compiles over 20s/120s are re-run alone with a larger budget.",
    "Time: only a reproducible overrun (600s alone for <=64KiB) is a violation; quadratic-but-finite compiles are reported in evidence, not as violations. Error-list order is not compared (not part of the statement).", "§4 C03"),
+ "C04": ("exploration", "per-instruction precondition monitor at a build-tagged VM hook + runtime-error classification",
+   "Every instruction executed by accepted programs (example programs over their testdata, 1k/15k well-typed generated programs, 3k/45k 'loose' type-confused mutants of generated and example programs) is checked, before it runs, against a per-opcode table of stack depth / operand representation / index range preconditions; every runtime-error message is classified as explicit checked condition vs internal fault; panics and an instruction budget are watched. Known ill-typed-but-accepted families (C04-a..f) are classified by instruction family + offending representation.",
+   "Trusted: the precondition table (validated: silent on the example programs; each report is confirmed by the VM's own reaction except for Jnm/Jm/Strptime which tolerate silently). Unclassified error messages make the run inconclusive.", "§4 C04, App. B"),
  "C08": ("exploration", "runtime reference-model monitor (injective-key map, datum identity)",
    "All tuples of arity 1-2 over components of length<=3 from {'-','\\\\','a'} are created in one real Metric and datum identity is checked to be a bijection (covers every ordered pair of that universe); every pair colliding under a naive encoding, plus 20k/400k random adversarial pairs of arity 1-4, go through a create/set/find/expire/emit/remove/re-create sequence against a reference map.",
    "Held on the tuples/pairs executed; trusted: Go maps, pointer equality, the harness's injective encoding.", "§4 C08"),
